@@ -2,7 +2,7 @@
 import itertools
 from .family import Family
 
-PROPS_MODULES = ["C16"]
+PROPS_MODULES = ["C16", "LtsSteps"]
 RULE = ("family `shutdown`: a real VhostUserDaemon (own backend, 1..3 workers, exit events on/off) serves one end of a unix "
         "connection, an independent raw peer the other; a schedule controller registered through verif_hooks::set_controller "
         "parks the daemon thread at the hold points of lib.rs (before handle_request, after it returned Ok, before the final "
